@@ -378,6 +378,25 @@ func checkC14(res *Result) {
 				nJSON = len(es)
 			}
 		}
+		// whatever the statement form: a nil answer needs a callback that ran (shared with C10-R10)
+		if sp := loadStreamsRootSSA(); sp != nil {
+			if fn := methodOf(sp, "JSONResolver", "Resolve"); fn != nil {
+				anon := map[*ssa.Function]bool{}
+				for _, a := range fn.AnonFuncs {
+					anon[a] = true
+				}
+				checkNilOnlyAfter(res, "C14-R2", fn, 0, true, func(c ssa.CallInstruction) bool {
+					if c.Common().IsInvoke() {
+						return false
+					}
+					if _, isBuiltin := c.Common().Value.(*ssa.Builtin); isBuiltin {
+						return false
+					}
+					callee := c.Common().StaticCallee()
+					return callee == nil || anon[callee]
+				}, "a call of a resolver callback")
+			}
+		}
 		res.Count("JSONResolver branches", nJSON, 60)
 	}
 
